@@ -435,7 +435,9 @@ def interleave_case(draw):
             "seqs": [draw(gen.sequence_spec(max_len=6, max_desc=2, grouped=False)) if container == "stream" else draw(avro_seq())
                      for _ in range(draw(st.integers(2, 3)))],
             "ways": [draw(st.sampled_from(["path", "hidden-name", "bytesio", "buffered-file"])) for _ in range(3)],
-            "big": draw(st.booleans())}
+            "big": draw(st.booleans()),
+            # the sources may also have been WRITTEN side by side (several writers of one codec open at once)
+            "written_side_by_side": draw(st.booleans())}
 
 
 def check_interleaved(case, ctx):
@@ -451,7 +453,52 @@ def check_interleaved(case, ctx):
     try:
         urls, datas, paths = [], [], []
         filler = RecordDescriptor("t/filler", [("bytes", "blob")])
-        for i, seq in enumerate(case["seqs"]):
+        side = case.get("written_side_by_side") and not case["big"]
+        if side:
+            ctx.cls("writers-open-side-by-side")
+            builts = []
+            for seq in case["seqs"]:
+                built = impl(lambda: [gen.build_any_record(m) for m in seq])
+                if not built.ok:
+                    return
+                builts.append(built.value)
+            if container == "avro":
+                # (one record type per Avro file: keep the records of the first record's type)
+                builts = [[r for r in b if not hasattr(r, "records") and r._desc == b[0]._desc] if b and not hasattr(b[0], "records")
+                          else [] for b in builts]
+            writers = []
+            for i in range(len(builts)):
+                name = ("s%d.records" % i if container == "stream" else "s%d.avro" % i) + ext
+                p = os.path.join(tmp, name)
+                url = p if container == "stream" else "avro://" + p
+                urls.append(url)
+                paths.append(p)
+                writers.append(RecordWriter(url))
+            for k in range(max([len(b) for b in builts] + [0])):
+                for w, b in zip(writers, builts):
+                    if k < len(b):
+                        res = impl(w.write, b[k])
+                        if not res.ok:
+                            for w2 in writers:
+                                impl(w2.close)
+                            ctx.cls("side-by-side:write-refused")
+                            return
+            for w in writers:
+                impl(w.flush)
+                w.close()
+            for i, p in enumerate(paths):
+                datas.append(open(p, "rb").read())
+                got = impl(lambda: read_all(lambda: RecordReader(urls[i]))[1])
+                want = [observe(r) for r in builts[i]]
+                if not got.ok or ([observe(r) for r in got.value] != want and container == "stream"):
+                    raise Violation(base + "/written-side-by-side", "%d %s writers open at once, written to in turn: source %d "
+                                    "reads back %s, %d records were written to it"
+                                    % (len(paths), codec, i, ("%d records" % len(got.value)) if got.ok else repr(got), len(want)),
+                                    detail="raised" if not got.ok else "content")
+                if got.ok and container == "avro" and len(got.value) != len(want):
+                    raise Violation(base + "/written-side-by-side", "%d %s Avro writers open at once: source %d holds %d records, "
+                                    "%d were written" % (len(paths), codec, i, len(got.value), len(want)), detail="count")
+        for i, seq in enumerate(case["seqs"] if not side else []):
             built = impl(lambda: [gen.build_any_record(m) for m in seq])
             if not built.ok:
                 return
